@@ -73,6 +73,19 @@ def cells(tier):
                 orders = [None]
                 if "order" in op.scalars:
                     orders = list(gen.EULER_ORDERS) + (["ZXZ", "yXy"] if tier == "quick" else [o.upper() for o in gen.EULER_ORDERS])
+                if op.result in ("scalar", "angle", "vec") and "synonym" not in op.tags:
+                    # accuracy tier: every stored system of the *second* operand with a Cartesian first operand and vice
+                    # versa in quick (conditioning depends on how an operand is stored), all signatures in thorough
+                    if tier == "quick":
+                        acc = [(CART[da], sb) for sb in (R.SYSTEMS[db] if db else [None])] + [(sa, CART[db] if db else None) for sa in R.SYSTEMS[da]]
+                        acc = list(dict.fromkeys(acc))
+                    else:
+                        acc = [(sa, sb) for sa in R.SYSTEMS[da] for sb in (R.SYSTEMS[db] if db else [None])]
+                    for sa, sb in acc:
+                        for order in (orders[:1] if tier == "quick" else orders):
+                            cid = f"{op.name}|{da}{R.sysname(sa)}|{db or ''}{R.sysname(sb) if sb else ''}|{order or ''}|acc"
+                            out.append({"id": cid, "op": op.name, "da": da, "db": db, "sa": R.sysname(sa),
+                                        "sb": R.sysname(sb) if sb else None, "order": order, "mode": "acc"})
                 for sa, sb in sigs:
                     for order in orders:
                         for mode in ("mp", "f64", "np", "ak"):
@@ -92,8 +105,22 @@ def examples(cell, tier):
     return 10
 
 
+ACC_STRATA = ("acc_timelike", "acc_ultra", "acc_at_rest", "acc_spacelike", "acc_lightcone_in", "acc_lightcone_out", "acc_neg_t", "acc_timelike")
+ACC_FWD = ("acc_timelike", "acc_ultra", "acc_at_rest", "acc_lightcone_in")
+
+
 def strategy(cell, tier):
     op = OPS[cell["op"]]
+    if cell["mode"] == "acc":
+        # "well-conditioned operands": all sign patterns and causal characters incl. ultra-relativistic ones, but not the
+        # geometric near-degeneracies (near-axis, near-plane, nearly parallel pairs) where acos/log-ratio formulas are
+        # not expected to keep full relative accuracy
+        from hypothesis import strategies as st
+
+        strata = ACC_STRATA if max(cell["da"], cell["db"] or 0) == 4 else ("acc_timelike",) * 3
+        parts = [opcheck.case_strategy(op, cell["db"], "mp", cell["order"], strata=(s_,), strata_b=(ACC_FWD if "boost" in op.tags else strata))
+                 for s_ in strata]
+        return st.tuples(*parts).map(list)
     mode = "mp" if cell["mode"] == "mp" else "f64"
     return opcheck.bundle_strategy(op, cell["da"], cell["db"], mode, cell["order"])
 
@@ -195,6 +222,12 @@ def _prepare(cell, case, ctx, op, sa, sb):
 def check_case(cell, bundle, ctx):
     if cell["mode"] in ("np", "ak"):
         return _check_numpy(cell, bundle, ctx)
+    if cell["mode"] == "acc":
+        for sub in bundle:
+            ctx.evaluation()
+            _check_accuracy(cell, sub, ctx)
+        ctx.evaluations -= 1
+        return
     for sub in bundle:
         ctx.evaluation()
         check_sub(cell, sub, ctx)
@@ -232,6 +265,135 @@ def check_sub(cell, case, ctx):
     q = opcheck.qualifiers(a, b)
     if _compare(ctx, op, cell, backend, got, ref, a_exact, b_exact, s_in, tol, q) and _generic(a, b, s_in):
         ctx.nontrivial(key=case, sample=case)
+
+
+DIMENSIONLESS = ("costheta", "cottheta", "eta", "theta", "beta", "gamma", "rapidity", "deltaeta", "deltaR", "deltaR2", "deltaangle",
+                 "deltaRapidityPhi", "deltaRapidityPhi2", "pseudorapidity")
+U = mpf(2) ** -53
+ACC_C = 256
+
+
+def _check_accuracy(cell, case, ctx):
+    """float64 result within a small multiple of rounding error of the exact value *for well-conditioned operands*:
+    the admissible error is ACC_C * u * (sum_i |d out / d in_i| |in_i| + |out|), with the sensitivities to the stored input
+    coordinates and scalar arguments estimated by finite differences of the 60-digit reference model - so an input for
+    which the operation is ill-conditioned in its stored representation gets a proportionally wider tolerance, and a
+    formula that loses accuracy on a well-conditioned input (cancellation) does not."""
+    import mpmath
+
+    op = OPS[cell["op"]]
+    da, db = cell["da"], cell["db"]
+    sa = opcheck.parse_system(cell["sa"])
+    sb = opcheck.parse_system(cell["sb"]) if cell["sb"] else None
+    prep = _prepare(cell, case, ctx, op, sa, sb)
+    if prep is None:
+        return
+    a, b, s_ref = prep
+    variant = _variant(cell)
+    backend = "object-f64"
+    try:
+        v, a_exact = obs.build(sa, a, False, op.momentum)
+        w, b_exact = (obs.build(sb, b, False, False) if db else (None, None))
+    except ZeroDivisionError:
+        ctx.exclude("mp_singular")
+        return
+    st_a = [mpf(x) for x in obs.stored(v)]
+    st_b = [mpf(x) for x in obs.stored(w)] if db else []
+    skeys = [k for k, val in case["s"].items() if isinstance(val, float)]
+    s_in = dict(case["s"])
+    try:
+        r = opcheck.call(op, v, w, s_in)
+    except CallRaised as e:
+        if isinstance(e.exc, ZeroDivisionError):
+            ctx.exclude("singular")
+            return
+        ctx.fail("exception", f"{op.name} raised {e.exc!r} for {variant}", op=op.name, variant=variant, backend=backend)
+        return
+    if case.get("rel") not in (None, "unary", "independent"):
+        ctx.exclude("correlated_pair")
+        return
+    if op.name == "to_beta3" and a[3] < 0:
+        ctx.exclude("negative_t")
+        return
+    if op.result == "vec":
+        sysr = obs.system_of(r)
+        got = [mpf(float(x)) for x in obs.stored(r)]
+        names = list(R.coord_names(sysr))
+        if op.changed is not None:
+            # scale2D/transform2D/...: only the coordinates the operation is documented to change
+            keep = 2 if op.changed == 2 else 3
+            got, names = got[:keep], names[:keep]
+    else:
+        sysr, got, names = None, [mpf(float(r))], [op.name]
+
+    def F(xa, xb, xs):
+        sc = dict(s_ref)
+        for k, val in zip(skeys, xs):
+            sc[k] = val
+        ca = R.to_cartesian(sa, xa)
+        cb = R.to_cartesian(sb, xb) if db else None
+        out = op.ref(ca, cb, sc)
+        if op.result == "vec":
+            if not R.representable(sysr, out):
+                raise Skip_("result_not_representable")
+            return list(R.from_cartesian(sysr, out))[: len(got)]
+        return [out]
+
+    xs0 = [mpf(case["s"][k]) for k in skeys]
+    try:
+        ref = F(st_a, st_b, xs0)
+        if not all(obs.finite(x) for x in ref):
+            ctx.exclude("nonfinite_reference")
+            return
+        delta = mpf(2) ** -30
+        sens = [mpf(0)] * len(ref)
+        groups = [(st_a, 0), (st_b, 1), (xs0, 2)]
+        for vec_, which in groups:
+            for i in range(len(vec_)):
+                base = vec_[i]
+                h = delta * (abs(base) if base != 0 else 1)
+                pert = list(vec_)
+                pert[i] = base + h
+                args = [st_a, st_b, xs0]
+                args[which] = pert
+                out = F(*args)
+                for k in range(len(ref)):
+                    d = out[k] - ref[k]
+                    if names[k] == "phi" or op.result == "angle":
+                        d = R.wrap_pi(d)
+                    sens[k] += abs(d) / delta
+    except Skip_ as sk:
+        ctx.exclude(sk.args[0])
+        return
+    except (ZeroDivisionError, ValueError):
+        ctx.exclude("mp_singular")
+        return
+    norm = max([abs(x) for x in ref] + [mpf(0)])
+    for k in range(len(ref)):
+        # angles and pseudorapidity are dimensionless: their own rounding floor is u*max(1,|value|)
+        dimensionless = names[k] in ("phi", "theta", "eta") or op.result == "angle" or op.name in DIMENSIONLESS
+        if dimensionless:
+            floor = max(abs(ref[k]), mpf(1))
+        elif op.result == "vec":
+            floor = max(abs(ref[k]), norm)
+        else:
+            floor = abs(ref[k])
+        tol = ACC_C * U * (sens[k] + floor) + mpf("1e-300")
+        d = got[k] - ref[k]
+        if names[k] == "phi" or op.result == "angle":
+            d = R.wrap_pi(d)
+        if mpmath.isnan(got[k]) or abs(d) > tol:
+            ctx.fail("accuracy" + opcheck.qualifiers(a, b), f"{op.name} {variant} [float64]: {names[k]} = {opcheck.fmt(got[k])}, exact value for the stored inputs "
+                     f"{opcheck.fmt(ref[k])}; error {mpmath.nstr(abs(d), 3)} is {mpmath.nstr(abs(d) / (U * (sens[k] + floor)), 3)} times the "
+                     f"rounding-error budget u*(conditioning+|value|) (allowed {ACC_C}); stored a={opcheck.fmt(st_a)} b={opcheck.fmt(st_b) if db else None} "
+                     f"scalars={case['s']}", op=op.name, variant=variant, backend=backend)
+            return
+    if _generic(a, b, case["s"]):
+        ctx.nontrivial(key=case, sample=case)
+
+
+class Skip_(Exception):
+    pass
 
 
 def _np_scalar_arrays(op, subs):
